@@ -3,6 +3,8 @@ C05 for TSP: the mask hides nothing — every permutation of the nodes is a mask
 the environment declares finished; together with C01 the set of complete mask-confined episodes IS
 the set of feasible tours, so the best reward reachable through the mask is the optimum.
 -/
+import Rl4co.Props.C03.Tsp
+import Rl4co.Proofs.TspfamOpt
 import Rl4co.Proofs.TspfamTsp
 import Rl4co.Props.C01.Tsp
 
@@ -23,5 +25,33 @@ theorem complete_run_iff_feasible (i : Inst) (hpos : 0 < i.n) (as : List Nat) :
 
 /-- Non-vacuity. -/
 example : Spec.Tsp.Feasible 3 [2, 0, 1] := (Spec.Tsp.feasible_iff 3 [2, 0, 1]).mp (by decide)
+
+/-- **C05 (TSP), the optimum stays reachable**: some complete mask-confined episode attains the minimum
+tour length over ALL feasible tours, and no complete mask-confined episode is shorter. -/
+theorem opt_reachable (i : Inst) (hpos : 0 < i.n) :
+    ∃ as s, Run env i (env.reset i) as s ∧ env.done i s = true ∧
+      (∀ bs, Spec.Tsp.Feasible i.n bs → Spec.Tsp.objective i.D as ≤ Spec.Tsp.objective i.D bs) ∧
+      (∀ bs t, Run env i (env.reset i) bs t → env.done i t = true →
+        Spec.Tsp.objective i.D as ≤ Spec.Tsp.objective i.D bs) := by
+  obtain ⟨as, hperm, hmin⟩ := exists_min_perm (List.range i.n) (Spec.Tsp.objective i.D)
+  have hfeas : ∀ bs, Spec.Tsp.Feasible i.n bs → Spec.Tsp.objective i.D as ≤ Spec.Tsp.objective i.D bs :=
+    fun bs hb => hmin bs ((Spec.Tsp.feasible_iff_perm i.n bs).mp hb)
+  obtain ⟨s, hrun, hd⟩ := run_of_feasible i hpos ((Spec.Tsp.feasible_iff_perm i.n as).mpr hperm)
+  exact ⟨as, s, hrun, hd, hfeas, fun bs t hr hdt => hfeas bs (feasible_of_run i hr hdt)⟩
+
+/-- in terms of the reward (symmetric distances): the best reward over complete mask-confined episodes is
+attained and equals minus the optimal tour length -/
+theorem opt_reachable_reward (i : Inst) (hs : ∀ a b, i.D a b = i.D b a) (hpos : 0 < i.n) :
+    ∃ as s, Run env i (env.reset i) as s ∧ env.done i s = true ∧
+      (∀ bs t, Run env i (env.reset i) bs t → env.done i t = true → reward i bs ≤ reward i as) ∧
+      (∀ bs, Spec.Tsp.Feasible i.n bs → - Spec.Tsp.objective i.D bs ≤ reward i as) := by
+  obtain ⟨as, s, hrun, hd, h1, h2⟩ := opt_reachable i hpos
+  refine ⟨as, s, hrun, hd, ?_, ?_⟩
+  · intro bs t hr hdt
+    rw [reward_eq_objective i hs, reward_eq_objective i hs]
+    have := h2 bs t hr hdt; omega
+  · intro bs hb
+    rw [reward_eq_objective i hs]
+    have := h1 bs hb; omega
 
 end Rl4co.Tsp
